@@ -386,10 +386,58 @@ Definition judge_multi (c o : sexp) : verdict :=
     end
   end.
 
+(** a support below zero other than the "absent" code -1: outside the property (a support is a
+    non-negative number; when UnRoot merges the two root branches s1, s2 it writes
+    max (max 0 s1) (max 0 s2) unless both are absent or a root child is a tip, so a negative support
+    on a root branch is not kept).  Such trees are used for the correspondence only (the model
+    follows the code on them), with the reduced oracle, the audit and the index clause. *)
+Definition has_neg_sup (t : utree) : bool :=
+  existsb (fun s => negb (qeqb (ssup s) nilv) && negb (Qle_bool 0 (ssup s))) (branch_splits [] t).
+
+Definition negsup_case (c : sexp) : bool :=
+  match get_tree "tree" c with Some t => has_neg_sup t | None => false end.
+
+Definition judge_negsup (op : string) (c o : sexp) : verdict :=
+  match get_tree "tree" c, get_string "err" o, get_string "panic" o with
+  | _, _, Some m => if has_prefix "build: " m || has_prefix "reinit: " m then VBad m else VOracle ("panic: " ++ m)
+  | Some t, Some gerr, None =>
+    let model : option (res utree) :=
+        if String.eqb op "unroot" then Some (Ok (unroot t))
+        else if String.eqb op "midpoint" then Some (reroot_midpoint t)
+        else if String.eqb op "outgroup" then
+          names <- get_strings "names" c ;;
+          remove <- get_bool "remove" c ;;
+          strict <- get_bool "strict" c ;;
+          Some (reroot_outgroup remove strict t names)
+        else None in
+    match model with
+    | None => VBad "bad case"
+    | Some (Err m) =>
+      if String.eqb gerr "" then VCorr ("model refuses (" ++ m ++ "), implementation succeeds")
+      else VOk false (op ++ ":negsup:err")
+    | Some (Ok t') =>
+      if negb (String.eqb gerr "") then VCorr ("implementation refuses: " ++ gerr ++ "; model: " ++ show_utree t')
+      else match get_tree "tree" o with
+           | None => VBad "no tree in observation"
+           | Some g =>
+             match first_some [audit_ok o;
+                               if String.eqb op "outgroup" && match get_bool "remove" c with Some true => true | _ => false end
+                               then None else oracle_reduced t g;
+                               index_ok g o] with
+             | Some m => VOracle m
+             | None => if utree_eqb t' g then VOk true (op ++ ":negsup") else VCorr ("model: " ++ show_utree t')
+             end
+           end
+    end
+  | _, _, _ => VBad "undecodable case or observation"
+  end.
+
 Definition judge (c o : sexp) : verdict :=
   match get_string "op" c with
   | Some op => if String.eqb op "outgroup_multi" then judge_multi c o
                else if String.eqb op "handbuilt" then judge_basic "reroot" c o
+               else if (String.eqb op "unroot" || String.eqb op "outgroup" || String.eqb op "midpoint")
+                       && String.eqb (pre_kind c) "" && negsup_case c then judge_negsup op c o
                else if String.eqb op "outgroup" || String.eqb op "midpoint" then judge_root op c o
                else judge_basic op c o
   | None => VBad "no op"
